@@ -327,6 +327,24 @@ func main() {
 	for _, k := range knownLines {
 		fmt.Printf("KNOWN-FINDING: property=%s %s (seen %d times)\n", *prop, k, total.KnownSeen[k])
 	}
+	// A scenario that exhausts its step budget is not a property violation (no
+	// listed property is a liveness claim) and, when rare, not an infrastructure
+	// failure either: it is counted and reported. More than a handful means the
+	// library hangs or the generators are mis-tuned: exit 2.
+	var hard []string
+	wd := 0
+	for _, m := range total.Infra {
+		if strings.Contains(m, "watchdog") {
+			wd++
+		} else {
+			hard = append(hard, m)
+		}
+	}
+	total.Counters["scenarios_aborted_by_step_budget"] = wd
+	if wd > 0 && wd <= 3 && float64(wd) <= 1e-4*float64(total.Scenarios) {
+		fmt.Fprintf(os.Stderr, "vcheck: note: %d scenario(s) exceeded the step budget and were abandoned: %s\n", wd, strings.Join(total.Infra, "; "))
+		total.Infra = hard
+	}
 	if len(total.Infra) > 0 && exit == 0 {
 		fmt.Fprintf(os.Stderr, "vcheck: infrastructure trouble: %s\n", strings.Join(total.Infra, "; "))
 		exit = 2
